@@ -88,7 +88,7 @@ class Pool:
         # (F36: stale typeform data behind the caller's input decided where the first call of a process stopped)
         self.files["len.ctb"] = ("space \\s 0\nletter \\x0564 15\nletter l 123\nlowercase \\x04c5 456\nlowercase b 126\n"
                                  "lowercase \\x04c4 12456\nlowercase c 1234\nlowercase f 1245\nnoback correct \"l\" \"bfl\"\n"
-                                 "nofor pass2 @456 @1245\n")
+                                 "always bf 123456\nnofor pass2 @456 @1245\n")
         self.lists.append(("len.ctb", "len"))
         letters = [c for c in self.gen["g2.ctb"].chars() if c > 0x20][:6] or [0x61]
         pats = []
@@ -183,6 +183,14 @@ class Pool:
                 for u in ins[:4]:
                     for cap in (len(u) + 1, len(u) + 2, 2 * len(u) + 3):
                         self.calls.append(("FWD", lst, "FWD %s %d %d - 12 %s - -" % (lst, rng.choice([0, 4]), cap, common.wide(u))))
+                # calls that leave type information in the library's scratch memory (no_contract / no_translate on a long
+                # text), and calls without a typeform whose corrected text is longer than the input AND than the capacity
+                pol = [0x62, 0x66, 0x63, 0x6c] * 10
+                for bits in (0x1000, 0x0800):
+                    self.calls.append(("FWD", lst, "FWD %s 4 200 - 13 %s %s -" % (lst, common.wide(pol), common.wide([bits] * len(pol)))))
+                for u in ([0x6c, 0x6c], [0x6c, 0x6c, 0x6c], [0x63, 0x6c, 0x6c]):
+                    for cap in (5, 8, 4):
+                        self.calls.append(("FWD", lst, "FWD %s 4 %d - 12 %s - -" % (lst, cap, common.wide(u))))
             if kind == "twin":
                 for w in ("zaaz", "azza", "abzab z"):
                     for cap in (1, 2, 3, 12):
